@@ -43,6 +43,7 @@ from workloads import tables
 PROP = 'C02'
 BACKENDS = ['reference', 'dask-synchronous', 'dask-threads', 'dask-processes', 'pyfunc', 'pyfunc-repeated']
 REAL_QUEUE = dask.local.Queue
+W1_INSTANCE = object()  # W1 runs bare tables: the runner is only constructed, never asked for its instance
 
 
 class RefRunner(runtime.Runner):
@@ -90,21 +91,22 @@ def run_backend(backend: str, symbols_factory: typing.Callable[[], typing.Any], 
             tables._log('sink', '--- call after the failed one ---')  # pylint: disable=protected-access
             expression(None)
         else:
+            # the runner is set up the way a platform does it (its constructor applies the runner's own defaults on top
+            # of which the scheduler / pool seam is configured), then the table is run
             scheduler = backend.split('-', 1)[1]
-            if scheduler == 'synchronous':
-                with dask.config.set(scheduler='synchronous'):
-                    daskrun.Runner.run(symbols_factory())
-            else:
+            kwargs: dict = {'scheduler': scheduler}
+            if scheduler != 'synchronous':
                 pool = tables.SimPool(nworkers, rng, stats)
                 tables.SimQueue.pool = pool
                 dask.local.Queue = tables.SimQueue
-                with dask.config.set(scheduler=scheduler, pool=pool, num_workers=nworkers):
-                    daskrun.Runner.run(symbols_factory())
+                kwargs.update(pool=pool, num_workers=nworkers)
+            daskrun.Runner(W1_INSTANCE, lc.Feed(), lc.Sink(), **kwargs).run(symbols_factory())
     except Exception as err:  # pylint: disable=broad-except
         return f'{type(err).__name__}: {err}'[:300]
     finally:
         dask.local.Queue = REAL_QUEUE
         tables.SimQueue.pool = None
+        dask.config.set(pool=None, num_workers=None, scheduler='synchronous')
     return None
 
 
@@ -125,6 +127,21 @@ def case_w1(seed: int) -> dict:
         err = run_backend(backend, factory, random.Random(seed * 31 + len(backend)), nworkers, stats)
         obs = read_log(logfile)
         results[backend] = {'error': err, 'sink': obs['sink'], 'exec': obs['exec']}
+    # the same table once more with an injected transient fault: one instruction raises the first time it is executed.
+    # Direct evaluation fails and delivers nothing; so must every backend (none of them retries)
+    victims = [n['name'] for n in dag['nodes'][:-1] if n['name'] != 'lam']
+    if victims and seed % 3 == 0:
+        victim = random.Random(seed ^ 0xFA).choice(victims)
+        stats['transient_fault'] = victim
+        os.environ['C02_FAULT'] = victim
+        try:
+            for backend in BACKENDS[:5]:
+                factory = lambda: list(flow.compile(tables.build_segment(dag)))  # noqa: E731
+                err = run_backend(backend, factory, random.Random(seed * 37 + len(backend)), nworkers, stats)
+                obs = read_log(logfile)
+                results[backend]['faulty'] = {'error': err, 'sink': obs['sink'], 'exec': obs['exec']}
+        finally:
+            del os.environ['C02_FAULT']
     return {'kind': 'w1', 'dag': dag, 'shape': tables.shape(dag), 'nworkers': nworkers, 'results': results,
             'stats': {k: v for k, v in stats.items() if k != 'trace'}, 'trace': stats.get('trace', '')}
 
@@ -236,6 +253,15 @@ def judge(case: dict) -> list[dict]:
                             'detail': f'one pyfunc expression, three calls (ok, failing inside the pipeline, ok): the third '
                                       f'call delivered {str(after)[:160]} - reference {str(ref["sink"])[:160]}'})
             continue
+        if case['kind'] == 'w1' and 'faulty' in res and 'faulty' in ref and ref['faulty']['error']:
+            mine = res['faulty']
+            if mine['error'] is None or mine['sink']:
+                out.append({'class': 'fault-swallowed', 'backend': backend,
+                            'detail': f'{backend}: instruction {case["stats"].get("transient_fault")} raised on its first '
+                                      f'execution - direct evaluation fails ({ref["faulty"]["error"][:80]}) and delivers '
+                                      f'nothing; this backend {"completed" if mine["error"] is None else "failed"} and '
+                                      f'delivered {str(mine["sink"])[:160]} (executions {mine["exec"]})'})
+                continue
         if case['kind'] == 'w1':
             if res['sink'] != ref['sink']:
                 out.append({'class': 'different-sink-output', 'backend': backend,
@@ -353,6 +379,8 @@ def main(argv: list[str]) -> int:
         digests.add(res['digest'])
         schedules.add(res['schedule'])
         stats['choices'] += res['stats'].get('choices', 0)
+        stats['transient'] += 1 if res['stats'].get('transient_fault') else 0
+        stats['poisoned'] += res['stats'].get('poisoned_calls', 0)
         stats['max_in_flight'] = max(stats['max_in_flight'], res['stats'].get('max_in_flight', 0))
         shape = res.get('shape') or {}
         shapes['head fan-out'] += shape.get('head_consumers', 0) > 1
@@ -404,7 +432,9 @@ def main(argv: list[str]) -> int:
         'max_tasks_in_flight': stats['max_in_flight'],
         'shapes_reached': dict(shapes),
         'runs_per_hour': round(nruns / wall * 3600) if wall else 0,
-        'fault_kinds_fired': {'seeded-completion-order': stats['choices']},
+        'fault_kinds_fired': {'seeded-completion-order': stats['choices'],
+                              'instruction-raises-on-first-execution (table re-run on 5 backends)': stats['transient'],
+                              'poisoned-request-inside-pipeline (pyfunc expression)': stats['poisoned']},
         'real_components': ['flow.compile', 'dask.Runner._mkjob/run', 'dask.threaded.get / dask.multiprocessing.get / '
                             'dask.local.get_async', 'cloudpickle of every task and result (processes)', 'pyfunc.Expression',
                             'runtime.Runner.train/apply (W2)', 'asset.State + posix.Registry (W2)'],
